@@ -25,7 +25,7 @@ def merkle_proof(rng, n=None, maxlen=120):
     return [rb(rng, rng.randint(1, maxlen)) for _ in range(n)]
 
 
-def blocks(rng, n, advance, bro_counts=None, n_fields=None):
+def blocks(rng, n, advance, bro_counts=None, n_fields=None, dup=True):
     """n headers (+ brothers) as field lists and hex; not a valid chain (the simulator does not validate
     content, the property is about what is relayed)."""
     out = []
@@ -42,7 +42,7 @@ def blocks(rng, n, advance, bro_counts=None, n_fields=None):
                 bf = enc.header_fields(rng, rng.choice([19, 20]), cb_full=bcb,
                                        cb_split=64 * rng.randint(0, len(bcb) // 64))
                 bros.append({"fields": bf, "cb": bcb, "raw": enc.rlp_encode(bf)})
-            if bros and rng.random() < 0.2:
+            if dup and bros and rng.random() < 0.2:
                 # brothers with EQUAL block hash: the same header listed twice, or a header differing only in
                 # the fields the hash does not cover (merkle proof, coinbase transaction)
                 x = rng.choice(bros)
